@@ -5,11 +5,15 @@
 //	R1  for k, v := range <map>      -> range over verifsim.OrderString(site, m)
 //	R2  os.Open / os.OpenFile / os.ReadFile -> verifsim.*
 //	R3  os.Stat / os.Lstat           -> verifsim.*
-//	R4  os.Stdout                    -> verifsim.Stdout()
+//	R4  os.Stdout                    -> verifsim.Stdout()   (a *verifsim.File in sink mode)
+//	R9  the type os.File             -> verifsim.File       (so that code which names the type keeps compiling)
 //	R5  time.Now                     -> verifsim.Now
 //	R6  user.Current                 -> verifsim.CurrentUser
 //	R7  ch <- v, select with a send case, go func(){...}  -> verifsim.Yield(site) inserted before
 //	    the statement (resp. first in the goroutine body): the schedule hook of the goroutine simulator
+//	R8  select with two or more communication cases -> the cases are first polled one by one in the
+//	    order verifsim.SelectOrder(site, n) gives, then the original select runs: which of several
+//	    ready cases is taken is decided by the schedule, not by the runtime's random choice
 //
 // It never touches /repo: it is pointed at directories of a scratch copy.
 package main
@@ -192,6 +196,14 @@ func doFile(p *packages.Package, f *ast.File, path string) error {
 				return true
 			}
 			pkg, name := obj.Pkg().Path(), obj.Name()
+			if _, isType := obj.(*types.TypeName); isType && pkg == "os" && name == "File" {
+				at := relPos(fset, n.Pos())
+				n.X = ast.NewIdent("verifsim")
+				note(&rep.Rewritten, site{"R9", at, "os.File", ""})
+				rep.Counts["R9"]++
+				changed = true
+				return false
+			}
 			if pkg == "os" && name == "Stdout" {
 				if _, isVar := obj.(*types.Var); isVar {
 					if _, lhs := c.Parent().(*ast.AssignStmt); lhs && c.Name() == "Lhs" {
@@ -223,6 +235,33 @@ func doFile(p *packages.Package, f *ast.File, path string) error {
 		}
 		return true
 	}, nil)
+	// second pass (R8), after R1-R7 so that the duplicated case bodies are not rewritten twice
+	astutil.Apply(f, func(c *astutil.Cursor) bool {
+		n, ok := c.Node().(*ast.SelectStmt)
+		if !ok {
+			return true
+		}
+		pos := relPos(fset, n.Pos())
+		if c.Index() < 0 {
+			note(&rep.Declined, site{"R8", pos, "select", "not a statement of a block (labelled?)"})
+			rep.Counts["R8_declined"]++
+			return true
+		}
+		staged, reason := stageSelect(n, pos)
+		if reason == "skip" {
+			return true
+		}
+		if reason != "" {
+			note(&rep.Declined, site{"R8", pos, "select", reason})
+			rep.Counts["R8_declined"]++
+			return true
+		}
+		c.Replace(staged)
+		note(&rep.Rewritten, site{"R8", pos, "select", ""})
+		rep.Counts["R8"]++
+		changed = true
+		return false
+	}, nil)
 	if !changed {
 		return nil
 	}
@@ -239,6 +278,92 @@ func doFile(p *packages.Package, f *ast.File, path string) error {
 	rel, _ := filepath.Rel(*root, path)
 	rep.Files = append(rep.Files, filepath.ToSlash(rel))
 	return os.WriteFile(path, buf.Bytes(), 0o644)
+}
+
+// pureComm reports whether evaluating the communication of a select case more than once is harmless.
+func pureComm(s ast.Stmt) bool {
+	ok := true
+	ast.Inspect(s, func(n ast.Node) bool {
+		call, isCall := n.(*ast.CallExpr)
+		if !isCall {
+			return true
+		}
+		switch fn := call.Fun.(type) {
+		case *ast.SelectorExpr:
+			if x, isID := fn.X.(*ast.Ident); isID && x.Name == "time" && (fn.Sel.Name == "After" || fn.Sel.Name == "Tick") {
+				return true
+			}
+			if fn.Sel.Name == "Done" && len(call.Args) == 0 {
+				return true
+			}
+		case *ast.Ident:
+			if fn.Name == "len" || fn.Name == "cap" {
+				return true
+			}
+		}
+		ok = false
+		return false
+	})
+	return ok
+}
+
+// stageSelect builds
+//
+//	{
+//		hrsimOrd, hrsimTaken := verifsim.SelectOrder(site, n), false
+//		if !hrsimTaken { switch verifsim.Pick(hrsimOrd, 0) { case 0: select { case <comm0>: hrsimTaken = true; body0; default: } case 1: ... } }
+//		... one such stage per communication case ...
+//		if !hrsimTaken { <the original select> }
+//	}
+//
+// No loop is introduced, so break/continue in the case bodies keep their meaning. With no
+// scheduler installed SelectOrder returns nil, every Pick is -1 and only the original select runs.
+func stageSelect(n *ast.SelectStmt, pos string) (ast.Stmt, string) {
+	var comms []*ast.CommClause
+	for _, cl := range n.Body.List {
+		cc := cl.(*ast.CommClause)
+		if cc.Comm != nil {
+			comms = append(comms, cc)
+		}
+	}
+	if len(comms) < 2 {
+		return nil, "skip"
+	}
+	for _, cc := range comms {
+		if !pureComm(cc.Comm) {
+			return nil, "a communication clause calls a function: evaluating it more than once could change behaviour"
+		}
+	}
+	id := ast.NewIdent
+	taken := func() ast.Stmt {
+		return &ast.AssignStmt{Lhs: []ast.Expr{id("hrsimTaken")}, Tok: token.ASSIGN, Rhs: []ast.Expr{id("true")}}
+	}
+	notTaken := func(body ...ast.Stmt) ast.Stmt {
+		return &ast.IfStmt{Cond: &ast.UnaryExpr{Op: token.NOT, X: id("hrsimTaken")}, Body: &ast.BlockStmt{List: body}}
+	}
+	block := &ast.BlockStmt{}
+	block.List = append(block.List, &ast.AssignStmt{
+		Lhs: []ast.Expr{id("hrsimOrd"), id("hrsimTaken")}, Tok: token.DEFINE,
+		Rhs: []ast.Expr{&ast.CallExpr{Fun: &ast.SelectorExpr{X: id("verifsim"), Sel: id("SelectOrder")},
+			Args: []ast.Expr{&ast.BasicLit{Kind: token.STRING, Value: fmt.Sprintf("%q", pos)}, &ast.BasicLit{Kind: token.INT, Value: fmt.Sprint(len(comms))}}}, id("false")},
+	})
+	for stage := range comms {
+		sw := &ast.SwitchStmt{
+			Tag: &ast.CallExpr{Fun: &ast.SelectorExpr{X: id("verifsim"), Sel: id("Pick")},
+				Args: []ast.Expr{id("hrsimOrd"), &ast.BasicLit{Kind: token.INT, Value: fmt.Sprint(stage)}}},
+			Body: &ast.BlockStmt{},
+		}
+		for i, cc := range comms {
+			poll := &ast.SelectStmt{Body: &ast.BlockStmt{List: []ast.Stmt{
+				&ast.CommClause{Comm: cc.Comm, Body: append([]ast.Stmt{taken()}, cc.Body...)},
+				&ast.CommClause{},
+			}}}
+			sw.Body.List = append(sw.Body.List, &ast.CaseClause{List: []ast.Expr{&ast.BasicLit{Kind: token.INT, Value: fmt.Sprint(i)}}, Body: []ast.Stmt{poll}})
+		}
+		block.List = append(block.List, notTaken(sw))
+	}
+	block.List = append(block.List, notTaken(&ast.SelectStmt{Body: n.Body}))
+	return block, ""
 }
 
 func yieldCall(pos string) ast.Stmt {
